@@ -27,6 +27,14 @@ for d in sorted((V / "rewrites").iterdir()):
     title = title if len(title) < 200 else title[:197] + "..."
     rows.append(f"| {d.name} | {title} | {'; '.join(desc) or 'none'} | {j.get('lead_note', '')} |")
 table = "\n".join(rows) + f"\n\n{n} rewrites, {quiet} left all 20 checks quiet on the first run.\n"
+reg = V / "rewrites" / "REGRESSION.json"
+if reg.exists():
+    rj = json.loads(reg.read_text())
+    noisy = sorted(k for k, v in rj.items() if v.get("alarms"))
+    gone = sorted(k for k, v in rj.items() if v.get("patch") == "DOES NOT APPLY")
+    table += (f"Latest regression run over all rewrites (tools/rewriteregress.py, current checks, current HEAD): "
+              f"{len(rj) - len(noisy) - len(gone)} of {len(rj)} quiet on all 20 checks"
+              + (f"; alarms on {noisy}" if noisy else "") + (f"; no longer applicable: {gone}" if gone else "") + ".\n")
 p = V / "DESIGN.md"
 s = p.read_text()
 a, b = "<!-- REWRITES:BEGIN -->", "<!-- REWRITES:END -->"
